@@ -37,6 +37,7 @@ TRUSTED_EXTRA = ['CPython str.splitlines / io text layer / UTF-8 codec as modell
                  '(splitlines_keepends, universal_nl, lines_lf, utf8, utf8_decode), tied by the same differential run',
                  '/bin/cat, tr, tail used as external programs in the correspondence cases']
 
+FIXED_MTIME = 1600000000
 KF1 = 'KF-C14-1'
 KF2 = 'KF-C14-2'
 EXOTIC_NO_CR = '\x0b\x0c\x1c\x1d\x1e\x85\u2028\u2029'
@@ -87,9 +88,17 @@ def gen_pred(rng):
 RUNS = {'cat': ('cat', 'g_cat'), 'tr': ('tr ab ba', 'g_tr_ab'), 'tail': ('tail -n +2', 'g_tail2')}
 
 
+# replace REGEX REPLACEMENT with a literal regex: (regex syntax, replacement syntax, pattern, replacement)
+REPLS = {'nl': ("'\\n'", "''", '\n', ''),          # removes every new-line
+         'bnl': ("'b\\n'", 'B', 'b\n', 'B'),        # removes the new-line of lines ending in b
+         'a_nl': ('a', "'a\\n'", 'a', 'a\n'),       # inserts new-lines
+         'abb': ('a', 'bb', 'a', 'bb')}               # neither
+
+
 def gen_atom(rng):
     return rng.weighted([(('id',), 3), (('upper',), 2), (('filter', gen_pred(rng)), 5),
-                         (('run', rng.choice(sorted(RUNS))), 2)])
+                         (('run', rng.choice(sorted(RUNS))), 2),
+                         (('replace', rng.choice(sorted(REPLS)), rng.chance(0.25)), 4)])
 
 
 def gen_trans(rng):
@@ -154,6 +163,8 @@ def atom_src(a):
         return 'identity'
     if a[0] == 'upper':
         return 'char-case -to-upper'
+    if a[0] == 'replace':
+        return 'replace %s%s %s' % ('-preserve-new-lines ' if a[2] else '', REPLS[a[1]][0], REPLS[a[1]][1])
     if a[0] == 'run':
         return 'run % ' + RUNS[a[1]][0] + '\n'  # the shell command takes the rest of the line
     return 'filter ' + pred_src(a[1])
@@ -164,6 +175,9 @@ def atom_coq(a):
         return 'TId'
     if a[0] == 'upper':
         return 'TUpper'
+    if a[0] == 'replace':
+        sub = '(subst %s %s)' % (ctext(REPLS[a[1]][2]), ctext(REPLS[a[1]][3]))
+        return '(TReplace %s)' % ('(sub_preserving_nl %s)' % sub if a[2] else sub)
     if a[0] == 'run':
         return '(TRun %s)' % RUNS[a[1]][1]
     return '(TFilter %s)' % pred_coq(a[1])
@@ -253,6 +267,7 @@ class World:
         self.n += 1
         p = self.home / ('f%d.txt' % self.n)
         p.write_bytes(text.encode('utf-8'))
+        os.utime(p, (FIXED_MTIME, FIXED_MTIME))  # one instant for all input files: size + mtime never tell files apart
         return p
 
     def clear_files(self):
@@ -337,16 +352,19 @@ CMPS = [('==', 'CEq'), ('!=', 'CNe'), ('<', 'CLt'), ('<=', 'CLe'), ('>', 'CGt'),
 
 
 def vary_text(rng, text, exotic):
-    r = rng.below(10)
-    if r < 6:
+    """the same text (50 %), a text of the SAME LENGTH differing in one character (25 %), longer, shorter, another"""
+    r = rng.below(20)
+    if r < 10:
         return text
-    if r < 7:
-        return text + rng.choice(['a', '\n', 'b\n'])
-    if r < 8 and text:
-        return text[:-1]
-    if r < 9 and text:
+    if r < 15 and text:
         k = rng.below(len(text))
-        return text[:k] + ('b' if text[k] != 'b' else 'a') + text[k + 1:]
+        if ord(text[k]) < 128 and text[k] not in '\r\n':
+            return text[:k] + ('b' if text[k] != 'b' else 'a') + text[k + 1:]
+        return text
+    if r < 17:
+        return text + rng.choice(['a', '\n', 'b\n'])
+    if r < 18 and text:
+        return text[:-1]
     return gen_text(rng, exotic)
 
 
@@ -513,6 +531,10 @@ CORPUS_ACCESS = [
     # repaired defect FIX-C14-2: a program part after a literal part, consumed as a file before freezing
     ('concat', (('str', 'X', None), ('prog', 'a\nb\n', None)), None, 8192, ['str', 'file']),
     ('file', 'a\nb\nc', ('seq', [('run', 'tr'), ('filter', ('ge', 2)), ('run', 'tail')]), 2, ['file', 'freeze', 'str', 'lines', 'file']),
+    # replace that removes / inserts new-lines: the output consumed through every view
+    ('str', 'abc\nxyz\n', ('atom', ('replace', 'nl', False)), 8192, ['lines', 'str', 'file', 'freeze', 'lines']),
+    ('file', 'ab\nxb\nca\n\nb', ('seq', [('replace', 'bnl', False), ('filter', ('ge', 2))]), 3, ['lines', 'file', 'freeze', 'lines', 'str']),
+    ('prog', 'aa\nb', ('atom', ('replace', 'a_nl', True)), 2, ['lines', 'str', 'freeze', 'lines', 'file']),
 ]
 
 
@@ -525,6 +547,7 @@ CORPUS_VERDICT = [
 ]
 CORPUS_KINDS = [
     ('a\nb\n', 'a\nb\n', None, 8192),
+    ('a\nb\n', 'a\nc\n', None, 8192),  # different texts of the same length (files: same size, same mtime)
     ('a\nb', 'a\nb', ('atom', ('id',)), 1),
     ('a\r\nb\r\n', 'a\r\nb\r\n', None, 8192),
 ]
@@ -544,8 +567,15 @@ def gen_long_text(rng, extra):
     return t if rng.chance(0.6) else t[:-1]
 
 
+def decorrelated(ctx):
+    """common.Rng streams of consecutive seeds are shifts of one another (state = seed * gamma + c, step = gamma);
+    draw one value from ctx.rng and start a stream at an unrelated 64-bit state, so that VERIF_SEED=1 and 2 give
+    unrelated inputs.  Everything is still derived from the one run seed."""
+    return common.Rng((ctx.rng.next() * 0x2545F4914F6CDD1D + ctx.seed * 0x632BE59BD9B4E019 + 0x9FB21C651E98DF25) & common.Rng.M)
+
+
 def run(ctx, res):
-    rng = ctx.rng
+    rng = decorrelated(ctx)
     n_acc, n_ver, n_kinds = (2500, 700, 120) if ctx.quick else (30000, 8000, 1500)
     world = World(ctx.work)
     extra = extra_to_read()
@@ -557,7 +587,8 @@ def run(ctx, res):
                 'and the str.splitlines boundaries VT FF FS GS RS NEL LS PS.  (2) verdict cases: a random matcher M (depth <= 2 '
                 'over num-lines, is-empty, equals SOURCE, !, &&, ||, -transformed-by) applied as M, ( M && M ), ( M || M ) and '
                 '-transformed-by identity M to fresh copies of such a source.  (3) kind cases: equals with expected and actual '
-                'text each from a literal, a file, a program (9 pairs), equal / nearly equal / long texts.  non-trivial := '
+                'text each from a literal, a file, a program (9 pairs), equal / same-length-one-character-different (25 %) / longer / '
+                'shorter / long texts; all input files get one fixed mtime.  non-trivial := '
                 '(1) freeze followed by a view, or a transformer, or no final newline / exotic boundary / non-ASCII; (2),(3) '
                 'all; distinct := distinct (source syntax, text, buffer, accesses | matcher | expected text)')
     cases = []  # dicts: term, json, texts, buff
@@ -630,7 +661,8 @@ def run(ctx, res):
                 exotic = rng.chance(0.25)
                 te = gen_long_text(rng, extra) if rng.chance(0.15) else gen_text(rng, exotic)
                 ta = vary_text(rng, te, exotic)
-                trans = rng.choice([None, None, ('atom', ('id',)), ('atom', ('filter', ('true',))), ('seq', [('id',), ('filter', ('ge', 1))])])
+                trans = rng.choice([None, None, None, ('atom', ('id',)), ('atom', ('filter', ('true',))), ('seq', [('id',), ('filter', ('ge', 1))]),
+                                    ('atom', ('replace', 'bnl', False))])
                 buff = gen_buff(rng, ta)
             observed = observe_kinds(world, te, ta, trans, buff)
             res.count('kind cases: ' + ('same text' if te == ta else 'different texts'))
@@ -719,7 +751,7 @@ def search(ctx, res):
     """failing-input search: the correspondence (or a proof) broke; look around the disagreeing inputs - same
     sources and texts, other buffer sizes / access orders / matchers - for an input on which the property predicate
     fails on the implementation and that no known finding covers."""
-    rng = ctx.rng
+    rng = decorrelated(ctx)
     world = World(ctx.work)
     extra = extra_to_read()
     tried = []
